@@ -75,6 +75,7 @@ def analyse(case, d):
 
 class C02(S.SchedCheck):
     pid = "C02"
+    ways = True
     props_mod = "HioModel.Props.C02"
     design_ref = "DESIGN.md §5 C02, Appendix A.1"
     technique = ("Lean 4 theorems over the shared scheduler model (counting invariant enter/exit, structure of a forced stop, order preservation of the zipper), "
